@@ -540,8 +540,9 @@ ONE_ARG_TESTS = ["all_words", "has_beginning", "has_date_eq", "has_date_gt", "ha
                  "has_number_gte", "has_number_lte", "has_only_phrase", "has_phone", "has_pattern"]
 
 
-FOREIGN_GROUPS = {"alpha group": "0a000000-0000-4000-8000-00000000000a", "members": "0b000000-0000-4000-8000-00000000000b",
-                  "two group": "0c000000-0000-4000-8000-00000000000c"}
+# (names the sheet generator never uses: one group name must not come with two uuids in one document)
+FOREIGN_GROUPS = {"vip list": "0a000000-0000-4000-8000-00000000000a", "members": "0b000000-0000-4000-8000-00000000000b",
+                  "beta testers": "0c000000-0000-4000-8000-00000000000c"}
 
 
 def retype_cases(rng, flow, groups=None):
@@ -558,7 +559,7 @@ def retype_cases(rng, flow, groups=None):
                 args = [rng.choice(["RW", "KE", "US"])] if t == "has_phone" else k["arguments"]
                 if t == "has_group":
                     # a membership test in a router that is not a group split (foreign exports have them)
-                    g = rng.choice(["alpha group", "members", "two group"])
+                    g = rng.choice(sorted(FOREIGN_GROUPS))
                     args = [FOREIGN_GROUPS[g], g]
                     if groups is not None and not any(x.get("name") == g for x in groups):
                         groups.append({"uuid": FOREIGN_GROUPS[g], "name": g})
